@@ -222,6 +222,19 @@ Definition real_schema : schema := {|
   derive := Some (o_goroot, o_gotool)
 |}.
 
+(* The options the harness reads back after every run, in its order; cases name them by index. *)
+Definition sampled : list opt :=
+  [ Single SStr (s "build.config"); Single SStr (s "build.nonce"); Single SStr (s "please.downloadlocation");
+    Single SBool (s "build.xattrs"); Single SBool (s "parse.gitfunctions"); Single SBool (s "display.updatetitle");
+    Single SStr (s "please.numoldversions"); Single SStr (s "display.maxworkers"); Single SStr (s "build.timeout");
+    Single SMap (s "buildconfig.my-key"); Single SMap (s "buildenv.secret");
+    o_goroot; o_gotool;
+    Multi (s "parse.buildfilename"); Multi (s "parse.blacklistdirs"); Multi (s "parse.builddefsdir");
+    Multi (s "build.path"); Multi (s "build.passenv"); Multi (s "build.hashcheckers"); Multi (s "please.pluginrepo");
+    Multi (s "parse.preloadsubincludes"); Multi (s "java.defaultmavenrepo") ].
+
+Definition O (i : nat) : opt := nth i sampled (Multi []).
+
 (* ---- correspondence cases ------------------------------------------------------------------------ *)
 Inductive files_arg :=
 | Default (e : env)                (* ReadDefaultConfigFiles: defaultConfigFiles() under this environment *)
@@ -232,8 +245,8 @@ Definition filenames_of (a : files_arg) : list str :=
 
 Inductive case :=
 | CRead (files : files_arg) (profiles : list str) (fs : fsys) (ovs : list override)
-        (opens : list str)                                  (* observed: names passed to fs.Open, in order *)
-        (result : option (list (opt * list str))).          (* observed: None = error, else option values *)
+        (opens : list str)                            (* observed: names passed to fs.Open, in order *)
+        (result : option (list (list str))).          (* observed: None = error, else the values of `sampled` *)
 
 Definition vals_eqb := list_eqb str_eqb.
 
@@ -252,7 +265,7 @@ Definition check (c : case) : bool :=
       match effective real_schema fs names profiles ovs, result with
       | Some m, Some obs =>
           list_eqb str_eqb (read_order names profiles) opens
-          && forallb (fun ov => vals_eqb (m (fst ov)) (snd ov)) obs
+          && list_eqb vals_eqb (map m sampled) obs
       | None, None => prefix_eqb opens (read_order names profiles)
       | _, _ => false
       end
